@@ -52,7 +52,10 @@ class Shadow:
         for e in events:
             f = e.split()
             k = f[0]
-            if k == 'XS':
+            if k == 'BS':
+                stack = []          # a new build: nothing is executing (the previous build of this session may have been aborted)
+                last_rs = None
+            elif k == 'XS':
                 t = int(f[1]); stack.append(t)
                 self.req[t] = []; self.reads[t] = set(); self.writes[t] = set()
                 last_rs = None
@@ -146,6 +149,7 @@ def run_oracles(prog, meta, sessions):
                 elif prog.kind == 'roles' and s.fresh_all is not None:
                     if all('abort' not in x for x in s.fresh_all):
                         suffix, why = stale_owner_status(s, k, prev_nodes)
+                        if is_bu: suffix += '-bottom-up'      # the recorded role-inversion findings are top-down patterns
                         out.append(('C20', 'spurious-' + k + suffix, '%s: incremental build aborted with %s but from-scratch builds of all known tasks (two orders) in the current state succeed%s' % (where, k, why)))
                 elif had_abort and s.fresh_all is not None and prog.kind in ('inject', 'panic'):
                     # C19: after an abort, a later build may abort again only for a violation that still exists
@@ -235,7 +239,7 @@ def run_oracles(prog, meta, sessions):
                     # ordering: a task popped from the queue (not nested in another execution) must not depend on another task
                     # that is still scheduled.  Dependencies are read from the store as the previous session left it, along
                     # paths through tasks that have not started in this build (their recorded edges cannot have changed).
-                    if depth == 0 and not ab and prev_nodes:
+                    if t in sched and not ab and prev_nodes:     # at any depth: require_scheduled_now also runs the deepest scheduled dependency first
                         seen = set(); st = ['T%d' % t]; hit = None
                         while st and hit is None:
                             x = st.pop()
@@ -249,7 +253,7 @@ def run_oracles(prog, meta, sessions):
                                 if yi not in started:
                                     st.append(y)
                         if hit is not None:
-                            out.append(('C04', 'dependency-order', '%s: scheduled task %d was executed from the queue before the scheduled task %d it (transitively) depends on' % (where, t, hit)))
+                            out.append(('C04', 'dependency-order', '%s: scheduled task %d started executing before the scheduled task %d it (transitively) depends on' % (where, t, hit)))
                     sched.discard(t); started.add(t); depth += 1
 
         # ---- C07: no re-entry
@@ -307,6 +311,23 @@ def run_oracles(prog, meta, sessions):
                 for w_ in ws:
                     if 'T%d' % w_ not in rec:
                         out.append(('C05', 'writer-not-recorded', '%s: task %d wrote %s in its latest execution but the store records writer(s) %r, so readers are not checked against it' % (where, w_, tgt, rec)))
+
+        # a read that was rejected (hidden dependency) records nothing: the aborted reader must not be left with a read
+        # dependency on that resource (it would make the legitimate writer abort later)
+        if ab and kinds and kinds[-1] == 'hidden' and s.events and s.events[-1].split()[0] in ('rS', 'rE'):
+            r = s.events[-1].split()[1]
+            stk = []; had = set()
+            for e in (s.events[:-1] if s.events[-1].startswith('rS ') else s.events[:-2]):
+                f = e.split()
+                if f[0] == 'BS': stk = []
+                elif f[0] == 'XS': stk.append(f[1]); had.discard((f[1], r))
+                elif f[0] == 'XE' and stk: stk.pop()
+                elif f[0] == 'rE' and stk and f[1] == r: had.add((stk[-1], r))
+            if stk and (stk[-1], r) not in had:
+                nd = nodes.get('T' + stk[-1])
+                if nd is not None and any(k == 'R' and tgt == 'R' + r for (k, tgt, c, st) in nd['outs']):
+                    for pr in ('C05', 'C19'):
+                        out.append((pr, 'rejected-read-recorded', '%s: the read of R%s by task %s was rejected (hidden dependency), yet the store is left with a read dependency of that task on R%s' % (where, r, stk[-1], r)))
 
         # write-side abort happens before the resource is modified (Context::write only; written_to declares a write
         # that already happened)
